@@ -296,23 +296,24 @@ def _bits(nbits, how):
     return sorted({0, 7, nbits - 1, nbits // 2} | {(nbits * j) // n for j in range(n)})[:max(n, 4)]
 
 
-def _bl_quick_group(secret, msg, generic, secrets, others):
-    """BLS, quick tier: a small, pairing-budgeted selection (about 15 verifications per group)."""
+def _bl_quick_group(secret, msg, generic, secrets, others, rich):
+    """BLS, quick tier: a small, pairing-budgeted selection (py_ecc needs ~0.35 s per verification, far more on a
+    loaded machine).  rich=True: one representative of every alteration target; otherwise sign cases + one rejection."""
     base = dict(curve='BL', secret=secret.hex(), msg=msg.hex(), generic=generic)
-    cases = [dict(k='sign', form=f, full=False, **base) for f in ('bytes', 'hex')]
+    cases = [dict(k='sign', form='bytes', full=False, **base)]
     if generic:
         return cases
     alts = [dict(t='msg', op='append', byte=0)]
-    if msg:
-        alts += [dict(t='msg', op='flip', bit=0), dict(t='msg', op='drop_last')]
-    alts += [dict(t='sig', op='flip', bit=b) for b in (0, 7, 767)]      # 7: a flag bit of the compressed point
-    alts += [dict(t='sig', op='zero'), dict(t='b58', pos=7)]
-    alts += [dict(t='key', op='other', secret=s2.hex()) for s2 in secrets if s2 != secret][:1]
-    alts += [dict(t='key', op='flip', bit=b) for b in (0, 383)]
-    alts += [dict(t='curve', other=c2, secret=others[c2].hex()) for c2 in ('ed', 'sp', 'p2')]
+    if rich:
+        alts += [dict(t='msg', op='flip', bit=0)] if msg else []
+        alts += [dict(t='sig', op='flip', bit=b) for b in (0, 7)]      # 7: a flag bit of the compressed point
+        alts += [dict(t='sig', op='zero'), dict(t='b58', pos=7)]
+        alts += [dict(t='key', op='other', secret=s2.hex()) for s2 in secrets if s2 != secret][:1]
+        alts += [dict(t='key', op='flip', bit=383)]
+        alts += [dict(t='curve', other=c2, secret=others[c2].hex()) for c2 in ('ed', 'sp', 'p2')]
     seen = set()
     for a in alts:
-        first = a['t'] not in seen
+        first = a['t'] not in seen and a['t'] in ('msg', 'key')
         seen.add(a['t'])
         cases.append(dict(k='reject', alt=a, chk=first, **base))
     return cases
@@ -329,17 +330,16 @@ def enumerate_cases(tier: str, seed: int = 0):
         if bl:
             msgs = [MESSAGES[0], MESSAGES[2], MESSAGES[4]] if thorough else [MESSAGES[0], MESSAGES[2]]
         else:
-            msgs = MESSAGES
+            msgs = MESSAGES if thorough else [MESSAGES[i] for i in (0, 1, 2, 4, 6)]
         others = {c: CC.secrets_of(c, 1, seed)[0] for c in CC.CURVES}
         for ki, secret in enumerate(secrets):
             for mi, msg in enumerate(msgs):
                 for generic in (False, True):
                     if bl and not thorough:
-                        if ki > 0 and mi == 0:
-                            continue        # pairing budget: (key0, b''), (key0, b'test'), (key1, b'test')
-                        cases = _bl_quick_group(secret, msg, generic, secrets, others)
-                        for i in range(0, len(cases), 3):
-                            chunks.append(cases[i:i + 3])
+                        if (ki == 0) != (mi == 1):
+                            continue        # pairing budget: (key0, b'test') rich, (key1 = scalar 1, b'') minimal
+                        cases = _bl_quick_group(secret, msg, generic, secrets, others, rich=(ki == 0))
+                        chunks += [[c] for c in cases]
                         continue
                     base = dict(curve=curve, secret=secret.hex(), msg=msg.hex(), generic=generic)
                     cases = []
@@ -362,7 +362,7 @@ def enumerate_cases(tier: str, seed: int = 0):
                     elif curve == 'p2':
                         how = 'all' if ((thorough and ki < 4) or (ki == 0 and mi < 2)) else 'bytes'
                     else:
-                        how = 'all' if (thorough or mi < 2) else 'bytes'
+                        how = 'all' if (thorough or (mi < 2 and ki < 2)) else 'bytes'
                     for b in _bits(sb, how):
                         alts.append(dict(t='sig', op='flip', bit=b))
                     alts.append(dict(t='sig', op='xorbyte', pos=0))
